@@ -31,6 +31,9 @@ CHECKS = {
  "C05": dict(level="exploration", technique="reference-evaluator monitor over executed-command log, escaping exception and sentinel statement; CLI runs for the exit status",
    text="Random and/or/&&/|| chains (tree = what Python precedence makes of the text, optional parenthesised groups) over pipelines of recording aliases and real `exitn N` children with scripted exit codes, every capture form, @error_raise/@error_ignore on the deciding stage, both operand spellings and all four flag settings are executed through Execer.exec followed by a sentinel statement; log order, CalledProcessError and its returncode, and the sentinel are compared with the A.1 evaluator; -c / script / stdin runs check the process exit status.",
    note="Chains with `$()`/`$[]` operands (Python value semantics) and @error_raise inside !() (conflicting documented rules) are run but not judged; parenthesised groups that the parser rejects are C03's subject; transient hangs are counted, only reproducible ones reported.", ref="§2 C05, A.1"),
+ "C03": dict(level="exploration", technique="differential monitor (bare vs generator-built explicit twin: tree equality, then execution traces with recording aliases) + logical step counters on parser.parse and Lexer.token for termination",
+   text="~4000 twins per quick run rendered from one chain tree (pipes, redirects, $VAR/@()/$(), strings) at top level, after `;`, after Python statements, in if/for/def/try/with/while bodies with space/tab indents, twice on a line, across backslash continuations and in one-line suites; ~20 000 fuzz strings (lexeme soup, mutated lines, 1-40 lines) are parsed under two logical clocks (parser.parse invocations, lexer tokens) so a hang is decided on steps, not wall clock.",
+   note="Each generated command carries at most one construct class that a listed finding trips over, so a failing pair is attributable to that class (confirmed by neutralising it) and any failure of a risk-free pair is a new violation; the token bound (60x) is 25 times the maximum observed on well-formed commands.", ref="§2 C03"),
 }
 NOT_BUILT = "check not built yet in this session (planned, see DESIGN.md §2); nothing is claimed for it"
 def main():
